@@ -63,6 +63,28 @@ def ref_final(h):
     return h
 
 
+def subst_len0(t):
+    """The reference term for len == 0: ('sym','len') replaced by 0 and re-normalised."""
+    if t == ("sym", "len"):
+        return const(0)
+    if not isinstance(t, tuple) or not t:
+        return t
+    k = t[0]
+    if k in ("xor", "add", "mul", "or"):
+        return mk_ac(k, [subst_len0(x) for x in t[1]])
+    if k == "join":
+        return mk_ac("or", [subst_len0(x) for x in t[1]])
+    if k == "shr":
+        return mk_shr(subst_len0(t[1]), t[2])
+    if k == "shl":
+        return mk_shl(subst_len0(t[1]), t[2])
+    if k == "and":
+        return mk_and(subst_len0(t[1]), t[2])
+    if k == "rotl":
+        return mk_rotl(subst_len0(t[1]), t[2])
+    return t
+
+
 def has_uf(t):
     if not isinstance(t, tuple):
         return False
@@ -98,9 +120,25 @@ def run(chk):
     def env0():
         return {dname: AStrSym(), sname: T(("sym", "seed"), 32)}
 
+    # ---- the empty input, if the code treats it apart (an early return on `not data` / `not length`): evaluated as its
+    # own scenario; every other region below is evaluated for len >= 1, and for len == 0 unless such a return exists
+    ev_e = Evaluator(fn, env0(), length="zero")
+    res_e = ev_e.block(pre)
+    programs += 1
+    if res_e is not None:
+        rv = res_e[1]
+        want_e = subst_len0(ref_final(ref_tail(("sym", "seed"), 0)))
+        got_e = rv.t if isinstance(rv, T) else None
+        _cmp(r3, isinstance(rv, T) and got_e == want_e, got_e, want_e, "empty input: finaliser(seed)", "murmur3_32:empty-input", "for the empty string the function returns %s", fn, pre[0] if pre else fn.node)
+        if isinstance(rv, T):
+            r1.expect(rv.w is not None and rv.w <= 32, "returned value has at most 32 bits (empty input)", "murmur3_32:return-width", "the value returned for the empty string is not bounded by 32 bits (width %s)" % rv.w, fn=fn, node=fn.node)
     # ---- pre-loop
     ev = Evaluator(fn, env0())
-    ev.block(pre)
+    res_n = ev.block(pre)
+    if res_n is not None:
+        raise Unsupported("murmur3_32 returns before the block loop for a non-empty input")
+    if ev.len_tests and res_e is None:
+        raise Unsupported("the code before the block loop branches on the length without returning: unsupported shape")
     env_pre = dict(ev.env)
     width_bad = list(ev.width_violations)
     calls = set(ev.calls)
